@@ -117,6 +117,13 @@ def gen(tier, seed, chunk, nch):
                     cases.append({"decl": d, "env": env, "argv": _given_argv(rng, kind, given),
                                   "pre": {"env": pre_env, "argv": pre_argv},
                                   "cell": [kind, str(given), envstate, repr(default), optional]})
+                # ... or has REJECTED a command line after taking a value from it (the ranking must not start from
+                # what the rejected call left behind)
+                cases.append({"decl": d, "env": env, "argv": _given_argv(rng, kind, given),
+                              "pre": {"env": rng.choice([None, b"earlier"]),
+                                      "argv": _given_argv(rng, kind, True) + rng.choice([[b"--nope"], [b"stray"], [b"-z"]]),
+                                      "rejected": True},
+                              "cell": [kind, str(given), envstate, repr(default), optional]})
     if tier == "thorough":
         cells = list(_cells())
         alpha = [b"-", b"=", b";", b"a", b" ", b"\n", b"\x80", b"1", b"no", b"on", b"TRUE"]
@@ -162,6 +169,8 @@ def evaluate(case, lines, S):
     cell = case["cell"]
     if case.get("pre"):
         S.counters["second-parse-after-another-environment-state"] += 1
+        if case["pre"].get("rejected"):
+            S.counters["second-parse-after-a-rejected-command-line"] += 1
     e = env.get(ENVN)
     bound = d["opts"][0].get("env") is not None
     S.counters["cell:%s:given=%s:%s" % (cell[0], cell[1], cell[2])] += 1
